@@ -1443,6 +1443,10 @@ fn rand_dir(w: &mut World, dir: &str, seed: u64, steps: u64, mounts: &[String]) 
     };
     let n = order.len();
     let mut cur = vec![0usize, 0usize];
+    // Host quirk (ext4, Linux 6.18): a directory descriptor whose FIRST getdents64 happened at the end-of-directory
+    // position is not rewound by a later lseek(0) (plain syscalls show the same). The driver therefore does not start
+    // a fresh handle at the end position.
+    let mut fresh = vec![false, true];
     for step in 0..steps {
         let slot = rng.below(2) as usize;
         let plus = rng.chance(1, 3);
@@ -1454,6 +1458,8 @@ fn rand_dir(w: &mut World, dir: &str, seed: u64, steps: u64, mounts: &[String]) 
             _ => cur[slot],
         }
         .min(n);
+        let j = if fresh[slot] && j == n { 0 } else { j };
+        fresh[slot] = false;
         let mut o = Op::new("readdir");
         o.p = did;
         o.h = handles[slot];
@@ -1485,6 +1491,7 @@ fn rand_dir(w: &mut World, dir: &str, seed: u64, steps: u64, mounts: &[String]) 
             w.exec(&o);
             handles[slot] = open(w);
             cur[slot] = 0;
+            fresh[slot] = true;
         }
     }
     // closing sequential pass with the smallest sizes that must still make progress, from the start, then
@@ -1576,8 +1583,12 @@ fn dir_pattern(w: &mut World, dir: &str, pat: &[(usize, usize, usize, bool)], mo
         }
     }
     let n = order.len();
+    let mut fresh = [false, true];
     for (slot, j, fit, plus) in pat {
         let j = (*j).min(n);
+        // see rand_dir: a fresh handle is not started at the end position (host quirk)
+        let j = if fresh[*slot % 2] && j == n { 0 } else { j };
+        fresh[*slot % 2] = false;
         let mut o = Op::new("readdir");
         o.p = did;
         o.h = handles[*slot % 2];
